@@ -71,10 +71,14 @@ class DBusMessage :
 #            if not a.startswith('raw'):
 #                print '    %s = %s' % (a.ljust(15), str(getattr(self,a)))
 
-    def _marshal(self, newSerial=True, oobFDs=None):
+    def _marshal(self, newSerial=True, oobFDs=None, rawBody=None):
         """
         Encodes the message into binary format. The resulting binary message is
         stored in C{self.rawMessage}
+
+        @param rawBody: if given, the already encoded body (in the byte order
+            of C{self.endian}) that is kept as it is instead of encoding
+            C{self.body} again; used when a parsed message is passed on
         """
         flags = 0
 
@@ -88,11 +92,14 @@ class DBusMessage :
         _headerAttrs = self._headerAttrs
 
         # marshal body before headers to know if the 'unix_fd' header is needed
-        if self.signature:
+        if rawBody is not None:
+            binBody = rawBody
+        elif self.signature:
             binBody = b''.join(
                 marshal.marshal(
                     self.signature,
                     self.body,
+                    lendian=self.endian == ord('l'),
                     oobFDs=oobFDs
                 )[1]
             )
@@ -383,6 +390,9 @@ def parseMessage(rawMessage, oobFDs):
         )
 
     m = object.__new__(_mtype[messageType])
+
+    # the byte order the message came in: kept when it is serialised again
+    m.endian = ord('l') if lendian else ord('B')
 
     m.rawHeader = rawMessage[:nheader]
 
